@@ -265,6 +265,119 @@ def unlimited_stack():
         pass
 
 
+# ---------------------------------------------------------------------------------------------------------
+# shrinking of failing cases: structure-agnostic deletion on the S-expression of the case line
+
+
+def _sx_parse(line):
+    toks = re.findall(r"\(|\)|[^\s()]+", line)
+    stack = [[]]
+    for t in toks:
+        if t == "(":
+            stack.append([])
+        elif t == ")":
+            if len(stack) < 2:
+                return None
+            top = stack.pop()
+            stack[-1].append(top)
+        else:
+            stack[-1].append(t)
+    return stack[0] if len(stack) == 1 else None
+
+
+def _sx_show(x):
+    return x if isinstance(x, str) else "(" + " ".join(_sx_show(c) for c in x) + ")"
+
+
+def _sx_paths(x, path=()):
+    """paths of all nodes that may be deleted or simplified (not the head atom of a list)"""
+    out = []
+    if isinstance(x, list):
+        for i, c in enumerate(x):
+            if i == 0 and isinstance(c, str) and path:
+                continue
+            out.append(path + (i,))
+            out += _sx_paths(c, path + (i,))
+    return out
+
+
+def _sx_edit(x, path, fn):
+    if not path:
+        return fn(x)
+    y = list(x)
+    r = _sx_edit(x[path[0]], path[1:], fn)
+    if r is None:
+        del y[path[0]]
+    else:
+        y[path[0]] = r
+    return y
+
+
+def case_fails(binary, pid, case, env):
+    """does the case still fail an oracle (harness-side) or the specification (Lean side)?"""
+    try:
+        r = subprocess.run([binary, "exec", pid], input=case + "\n", capture_output=True, text=True, env=env, timeout=60)
+    except Exception:
+        return False
+    lines = r.stdout.split("\n")
+    if len(lines) < 3 or lines[1].startswith("(bad-arg"):
+        return False
+    if lines[2].startswith("FAIL"):
+        return True
+    try:
+        m = subprocess.run([os.path.join(LEAN, ".lake", "build", "bin", "ippmodel")], input=lines[0] + "\n", capture_output=True, text=True, timeout=60)
+    except Exception:
+        return False
+    mo = m.stdout.strip()
+    if " ## " in mo:
+        spec = mo.split(" ## ", 1)[1]
+        return spec != "-" and not spec.startswith("(bad") and spec != lines[1]
+    return False
+
+
+def shrink_case(binary, pid, case, budget_s=45, max_tries=400):
+    """greedy deletion / truncation; returns a smaller case that still fails (or the original)"""
+    if isinstance(binary, list):
+        binary = binary[0]
+    env = dict(os.environ, IPPUTIL_BIN=os.path.join(UTIL_TARGET, "release", "ipputil"))
+    top = _sx_parse(case)
+    if top is None or not case_fails(binary, pid, case, env):
+        return case
+    t0 = time.time()
+    tries = 0
+    progress = True
+    while progress and time.time() - t0 < budget_s and tries < max_tries:
+        progress = False
+        for path in sorted(_sx_paths(top), key=lambda p: (len(p), p)):
+            if time.time() - t0 > budget_s or tries >= max_tries:
+                break
+            if len(path) == 1 and path[0] == 0:
+                continue   # the op name
+
+            def node_at(x, p):
+                for i in p:
+                    if not isinstance(x, list) or i >= len(x):
+                        return None
+                    x = x[i]
+                return x
+            node = node_at(top, path)
+            if node is None:
+                continue
+            cands = [_sx_edit(top, path, lambda _: None)]
+            if isinstance(node, str) and len(node) > 8 and re.fullmatch(r"[0-9a-f]+", node):
+                cands.append(_sx_edit(top, path, lambda n: n[: (len(n) // 4) * 2] or "-"))
+            for cand in cands:
+                tries += 1
+                line = " ".join(_sx_show(c) for c in cand)
+                if len(line) < len(" ".join(_sx_show(c) for c in top)) and case_fails(binary, pid, line, env):
+                    top = cand
+                    progress = True
+                    break
+            if progress:
+                break
+    return " ".join(_sx_show(c) for c in top)
+
+
 def clip(s, n=600):
     return s if len(s) <= n else s[:n] + f"…[{len(s)} chars]"
 
@@ -368,7 +481,14 @@ def check(pid, tier):
         else:
             new_o.append((i, case, im, mo, text))
     for j, (i, case, im, mo, text) in enumerate(new_o[:5]):
-        p = write_replay(rundir, pid, f"o{j}", {"property": pid, "kind": "oracle-failure", "case_index": i, "case": case,
+        small = case
+        if j == 0 and harness_ok and driver_ok:
+            try:
+                small = shrink_case(binary, pid, case)
+            except Exception as e:
+                notes.append(f"shrinking failed: {e}")
+        p = write_replay(rundir, pid, f"o{j}", {"property": pid, "kind": "oracle-failure", "case_index": i, "case": small,
+                                                "case_as_generated": case if small != case else None,
                                                 "implementation": im, "model_or_spec": mo, "what": text, "seed": seed,
                                                 "tier": tier, "replay_cmd": f"python3 run.py replay <this file>"})
         violations.append((p, ""))
